@@ -6,6 +6,7 @@ is a mismatch) over type-directed programs, grammar-directed (ill-typed) program
 
 from __future__ import annotations
 
+import os
 from typing import Any, Dict, Optional, Tuple
 
 from hypothesis import strategies as st
@@ -86,6 +87,24 @@ def check_src(run: common.Run, src: str, binds: Dict[str, Any], case: dict, repo
         report(f"IC-src[{flags}]-{mode_of(i, c)}", case, f"{src[:150]}: I={outcome.short(i)[:120]} C={outcome.short(c)[:120]}")
 
 
+def check_names(run: common.Run, bindings: Dict[str, Any], package: Optional[str], ref: str, annotate: bool, report) -> None:
+    """A (possibly dotted) reference evaluated against a set of (possibly dotted, overlapping) bindings under a package: I and C agree."""
+    from checks import c12
+
+    run.tick()
+    run.event("dotted-name-case")
+    i = c12.observe(ref, bindings, package, annotate, "I")
+    c = c12.observe(ref, bindings, package, annotate, "C")
+    if len(bindings) >= 2:
+        run.nt(("names", repr(sorted(bindings.items(), key=repr)), package, ref, annotate))
+        run.event("nontrivial")
+    if i != c:
+        kind = lambda o: "error" if o == c12.ERR else ("crash" if isinstance(o, tuple) and o and o[0] == "crash" else "value")
+        overlap = any(k != j and j.startswith(k + ".") for k in bindings for j in bindings)
+        report(f"IC-names[{'overlapping' if overlap else 'disjoint'}-bindings|pkg{len(package.split('.')) if package else 0}{'|dot' if ref.startswith('.') else ''}{'|ann' if annotate else ''}]-I-{kind(i)}-C-{kind(c)}",
+               {"names": True, "bindings": bindings, "package": package, "ref": ref, "annotate": annotate}, f"{ref} with {bindings} package={package}: I={str(i)[:100]} C={str(c)[:100]}")
+
+
 def check_program(run: common.Run, node: Tuple, env: Dict[str, Tuple[str, Any]], report) -> None:
     src = ir.render(node)
     for f in ir.features(node):
@@ -102,13 +121,24 @@ def _node(x):
 def replay(run: common.Run, case: dict, key: str = ""):
     problems = []
     rep = lambda k, c, d: problems.append((k, d))
-    if "package" in case:
+    if case.get("names"):
+        check_names(run, case["bindings"], case["package"], case["ref"], case["annotate"], rep)
+    elif "package" in case:
         package_pass(run, rep)
     elif "node" in case:
         check_program(run, _node(case["node"]), {k: (v[0], v[1]) for k, v in case["env"].items()}, rep)
     else:
-        check_src(run, case["src"], {}, {"src": case["src"]}, rep)
+        check_src(run, case["src"], _fuzz_binds(case), {"src": case["src"]}, rep)
     return problems
+
+
+def _fuzz_binds(case: dict) -> Dict[str, Any]:
+    """Findings of the coverage-guided campaign name one of its fixed activations."""
+    if "fuzz_activation" not in case:
+        return {}
+    from vf import fuzzdata
+
+    return fuzzdata.activations()[case["fuzz_activation"]]
 
 
 def corpus_pass(run: common.Run, report, shard: Optional[Tuple[int, int]] = None) -> None:
@@ -151,8 +181,15 @@ def campaign(run: common.Run) -> None:
     def body_mut(s):
         check_src(run, s, {}, {"src": s}, run.hyp_fail)
 
+    def body_names(c):
+        check_names(run, c[0], c[1], c[2], c[3], run.hyp_fail)
+
     common.drive(run, body_typed, {"p": gen.typed_program(4)}, 1200 if q else 20000, seed_salt=1)
     common.drive(run, body_any, {"p": gen.any_program(4)}, 1500 if q else 25000, seed_salt=2)
+    from checks import c12
+
+    # dotted names: overlapping bindings (a.b and a.b.c), packages, leading-dot references - resolved the same way by both runners
+    common.drive(run, body_names, {"c": c12.random_bindings()}, 500 if q else 8000, seed_salt=6)
     common.drive(run, body_typed, {"p": gen.nested_macro_program()}, 400 if q else 8000, seed_salt=4)
     common.drive(run, body_typed, {"p": gen.document_program()}, 600 if q else 10000, seed_salt=5)
     common.drive(run, body_mut, {"s": progs.mutated_corpus()}, 500 if q else 10000, seed_salt=3)
@@ -177,3 +214,5 @@ def main(run: common.Run) -> None:
         corpus_pass(run, run.fail)
         for s in common.run_sharded(run.pid, run.tier, run.seed, campaign, 16, RULE):
             run.merge(s)
+        # coverage-guided supplement (shares the target with C04: both oracles run inside it; only what this check's replay reproduces is reported here)
+        run.extra["coverage_guided"] = common.fuzz_campaign(run, replay, workers=16, runs=int(os.environ.get("VERIF_FUZZ_RUNS", "60000")))
